@@ -895,7 +895,9 @@ class Ops:
         return ("abstract", self.unk(f"iteration over {type(v).__name__}", node), {})
 
     def loop_enter(self, lid, st, info, env):
-        pass
+        if not hasattr(self, "loop_stmts"):
+            self.loop_stmts = {}
+        self.loop_stmts[lid] = st
 
     def comp_enter(self, info):
         pass
@@ -1080,8 +1082,9 @@ class Ops:
         new = self.interp.binop(cur, op, rhs, st, env)
         if tcur is not None and not tcur.is_py and isinstance(new, TV):
             # in-place on a tensor / array: the target keeps its identity
-            self.ev("inplace", st, alias=tcur.alias, target=norm_text(st.target))
             trhs = tv_of(rhs)
+            self.ev("inplace", st, alias=tcur.alias, target=norm_text(st.target), op=type(op).__name__, rhs_origin=sorted(trhs.origin) if trhs is not None else None,
+                    over_loop_index=bool(trhs is not None and trhs.gen - tcur.gen), target_poly=repr(tcur.poly) if tcur.poly is not None else None, target_axes=list(tcur.axes))
             gen = new.gen
             p = new.p
             if isinstance(op, ast.Add) and trhs is not None and trhs.gen - tcur.gen:
